@@ -715,10 +715,77 @@ def r10_output_family(ctx, sym):
     ctx.floor('R10', 'output assertion cells', n, 100)
 
 
+def r11_documented_options(ctx, sym):
+    ctx.rule('R11', "the documented keyword options of the runtime assertions (explanation=, context=, assertion=) do not "
+                    "reach condition(): RuntimeAssertionFeedback.__init__ is executed abstractly with each option and "
+                    "whatever it forwards beyond Feedback.__init__'s own parameters must be a parameter of the "
+                    "assertion's condition (an unexpected keyword raises TypeError inside the condition, which the "
+                    "wrapper turns into a silent pass)")
+    from .. import symexec
+    amod = ctx.repo.module(AFEED)
+    init = amod.func('RuntimeAssertionFeedback.__init__')
+    ctx.analysed_function(amod, init)
+    fmod = ctx.repo.module('pedal.core.feedback')
+    finit = fmod.func('Feedback.__init__')
+    named = {a.arg for a in finit.args.kwonlyargs} | {a.arg for a in finit.args.args}
+    options = [('explanation', 'You added incorrectly.'), ('context', 'I ran your code.'), ('context', False),
+               ('assertion', 'The result was wrong.'), ('assertion', False)]
+    forwarded = {}
+    for name, value in options:
+        rec = symexec.Recorder()
+        sup = Obj('super')
+        symexec.method(sup, '__init__', rec.stub('super().__init__'))
+        group = None
+        fmt = Obj('format', __open__=True)
+        fmt.attrs['__unknown_method__'] = lambda n, *a, **k: 'formatted'
+        report = Obj('report', format=fmt)
+        symexec.method(report, 'get_current_group', lambda: group)
+        symexec.method(report, '__getitem__', lambda k: {'exceptions': False})
+        me = symexec.self_obj(amod, 'RuntimeAssertionFeedback', _expected_verb='to be', _aggregate_verb='Expected',
+                              _inverse_operator='!=')
+        symexec.method(me, 'get_sandbox_contexts', lambda *a: [])
+        symexec.method(me, 'format_assertion', lambda *a: 'assertion text')
+        symexec.method(me, '__bool__', lambda: True)
+        left = Obj('left', value=1, is_error=False, is_sandboxed=False)
+        right = Obj('right', value=2, is_error=False, is_sandboxed=False)
+        for o in (left, right):
+            symexec.method(o, 'set_report', lambda r: None)
+        fd = symexec.new_fd(sym, amod, calls={'super': lambda *a: sup, 'format_contexts': lambda *a: 'contexts'},
+                            extra={'MAIN_REPORT': report})
+        _, raised = symexec.run(fd, init, [left, right], {name: value, 'report': report}, bound_self=me,
+                                what='RuntimeAssertionFeedback.__init__')
+        built = rec.named('super().__init__')
+        if raised is not None or len(built) != 1:
+            raise AnalysisError("C07 R11: RuntimeAssertionFeedback.__init__ did not reach Feedback.__init__ once "
+                                "(%s)" % (raised.kind if raised is not None else len(built)))
+        forwarded[(name, repr(value))] = set(built[0][2]) - named
+    classes = [sp.name for sp in SPECS] + [e[0] for e in EQUALITY] + [o[0] for o in OUTPUT_FAMILY]
+    n = 0
+    for cls_name in classes:
+        ci = sym.find_class(RUNTIME, cls_name)
+        m = sym.method(ci, 'condition') if ci is not None else None
+        if m is None:
+            raise AnalysisError("anchor vanished: %s.condition" % cls_name)
+        cond = m[1]
+        accepts = {a.arg for a in cond.args.args + cond.args.kwonlyargs}
+        takes_any = cond.args.kwarg is not None
+        for (name, value), extra in sorted(forwarded.items()):
+            n += 1
+            stray = set() if takes_any else (extra - accepts)
+            ctx.check(not stray, 'R11', '%s(%s=%s)' % (cls_name, name, value), m[0].module, cond,
+                      "%s(..., %s=%s): the option is forwarded to %s.condition(), which has no such parameter - the "
+                      "condition raises TypeError, the wrapper swallows it and the assertion passes whatever the "
+                      "operands" % (cls_name, name, value, cls_name),
+                      "%s(1, 2, %s=%s) produces no feedback; every PedalTestCase.assert* method passes "
+                      "explanation=msg" % (cls_name, name, value))
+    ctx.floor('R11', 'assertion x option cells', n, 150)
+
+
 def run(ctx):
     sym = Symbols(ctx.repo)
     h = Harness(ctx, sym)
     r10_output_family(ctx, sym)
+    r11_documented_options(ctx, sym)
     outcomes = r_tables(ctx, sym, h)
     r2_pairs(ctx, sym, h, outcomes)
     r_equality_family(ctx, sym, h)
